@@ -251,6 +251,19 @@ func (u *c13Upstream) release(id int) {
 	}
 }
 
+// forget drops the recorded arrivals with lo < id <= hi (a retried timed case starts from a clean record).
+func (u *c13Upstream) forget(lo, hi int) {
+	u.mu.Lock()
+	defer u.mu.Unlock()
+	kept := u.arrived[:0]
+	for _, id := range u.arrived {
+		if !(id > lo && id <= hi) {
+			kept = append(kept, id)
+		}
+	}
+	u.arrived = kept
+}
+
 func (u *c13Upstream) arrivedSorted() []int {
 	u.mu.Lock()
 	defer u.mu.Unlock()
@@ -307,13 +320,13 @@ func (c *c13Conn) AsyncWrite(p []byte, cb gnet.AsyncCallback) error {
 	return nil
 }
 
-func (c *c13Conn) Flush() error                   { return nil }
-func (c *c13Conn) Context() interface{}           { return c.ctx }
-func (c *c13Conn) SetContext(ctx interface{})     { c.ctx = ctx }
-func (c *c13Conn) RemoteAddr() net.Addr           { return &net.TCPAddr{IP: net.IPv4(127, 0, 0, 1), Port: 40000} }
-func (c *c13Conn) LocalAddr() net.Addr            { return &net.TCPAddr{IP: net.IPv4(127, 0, 0, 1), Port: 53} }
-func (c *c13Conn) Close() error                   { c.mu.Lock(); c.closed = true; c.mu.Unlock(); return nil }
-func (c *c13Conn) asyncCount() int                { c.mu.Lock(); defer c.mu.Unlock(); return c.nAsync }
+func (c *c13Conn) Flush() error               { return nil }
+func (c *c13Conn) Context() interface{}       { return c.ctx }
+func (c *c13Conn) SetContext(ctx interface{}) { c.ctx = ctx }
+func (c *c13Conn) RemoteAddr() net.Addr       { return &net.TCPAddr{IP: net.IPv4(127, 0, 0, 1), Port: 40000} }
+func (c *c13Conn) LocalAddr() net.Addr        { return &net.TCPAddr{IP: net.IPv4(127, 0, 0, 1), Port: 53} }
+func (c *c13Conn) Close() error               { c.mu.Lock(); c.closed = true; c.mu.Unlock(); return nil }
+func (c *c13Conn) asyncCount() int            { c.mu.Lock(); defer c.mu.Unlock(); return c.nAsync }
 func (c *c13Conn) waitAsync(n int, d time.Duration) bool {
 	deadline := time.Now().Add(d)
 	spins := 0
